@@ -24,78 +24,82 @@ def mk(path, title, extra_uses, entries, pre=""):
             E.append(dict(file="src/%s.rs" % file, hdr=hdr, name=name, contract=contract, props=props, mode="stub"))
     build(path, "// %s\n" % title + HDR + extra_uses + "verus! {\n" + pre, E)
 
-BITS_POST = "ret__ as int <= 64 * LIMBS, (ret__ == 0) == (self.v() == 0), self.v() < p2(ret__ as nat), ret__ > 0 ==> self.v() >= p2((ret__ - 1) as nat)"
-WFL = "1 <= LIMBS < 0x400_0000"
-mk("/verif/units/l2_shift.rs", "L2: Uint shifts and bit queries (src/uint/shl.rs, shr.rs, bits.rs) -- C05", "", [
- ("uint/bits", U, "bits", "requires %s\n    ensures %s" % (WFL, BITS_POST), "C05 C11"),
- ("uint/bits", U, "bits_vartime", "requires %s\n    ensures %s" % (WFL, BITS_POST), "C05 C11 C15"),
- ("uint/bits", U, "leading_zeros", "requires %s\n    ensures ret__ as int <= 64 * LIMBS, (ret__ as int == 64 * LIMBS) == (self.v() == 0), self.v() < p2((64 * LIMBS - ret__) as nat), (ret__ as int) < 64 * LIMBS ==> self.v() >= p2((64 * LIMBS - ret__ - 1) as nat)" % WFL, "C05 C11"),
- ("uint/bits", U, "trailing_zeros", "requires %s\n    ensures ret__ as int <= 64 * LIMBS, (ret__ as int == 64 * LIMBS) == (self.v() == 0), self.v() %% p2(ret__ as nat) == 0, (ret__ as int) < 64 * LIMBS ==> (self.v() / p2(ret__ as nat)) %% 2 == 1" % WFL, "C05 C11"),
- ("uint/bits", U, "trailing_zeros_vartime", "requires %s\n    ensures ret__ as int <= 64 * LIMBS, (ret__ as int == 64 * LIMBS) == (self.v() == 0), self.v() %% p2(ret__ as nat) == 0, (ret__ as int) < 64 * LIMBS ==> (self.v() / p2(ret__ as nat)) %% 2 == 1" % WFL, "C05 C11 C15"),
- ("uint/bits", U, "bit", "requires %s\n    ensures ret__.wf(), ret__.t() == ((index as int) < 64 * LIMBS && (self.v() / p2(index as nat)) %% 2 == 1)" % WFL, "C05 C11"),
- ("uint/bits", U, "bit_vartime", "requires %s\n    ensures ret__ == ((index as int) < 64 * LIMBS && (self.v() / p2(index as nat)) %% 2 == 1)" % WFL, "C05 C11 C15"),
- ("uint/shl", U, "shl", "requires %s, (shift as int) < 64 * LIMBS\n    ensures ret__.v() == (self.v() * p2(shift as nat)) %% bp(LIMBS as nat)" % WFL, "C05 C11"),
- ("uint/shl", U, "shl_vartime", "requires %s, (shift as int) < 64 * LIMBS\n    ensures ret__.v() == (self.v() * p2(shift as nat)) %% bp(LIMBS as nat)" % WFL, "C05 C11 C15"),
- ("uint/shl", U, "overflowing_shl", "requires %s\n    ensures ret__.is_some.wf(), ret__.is_some.t() == ((shift as int) < 64 * LIMBS), ret__.is_some.t() ==> ret__.value.v() == (self.v() * p2(shift as nat)) %% bp(LIMBS as nat), !ret__.is_some.t() ==> ret__.value.v() == 0" % WFL, "C05 C11"),
- ("uint/shl", U, "overflowing_shl_vartime", "requires %s\n    ensures ret__.is_some.wf(), ret__.is_some.t() == ((shift as int) < 64 * LIMBS), ret__.is_some.t() ==> ret__.value.v() == (self.v() * p2(shift as nat)) %% bp(LIMBS as nat), !ret__.is_some.t() ==> ret__.value.v() == 0" % WFL, "C05 C11 C15"),
- ("uint/shl", U, "wrapping_shl", "requires %s\n    ensures ret__.v() == (if (shift as int) < 64 * LIMBS { (self.v() * p2(shift as nat)) %% bp(LIMBS as nat) } else { 0 })" % WFL, "C05 C11"),
- ("uint/shl", U, "wrapping_shl_vartime", "requires %s\n    ensures ret__.v() == (if (shift as int) < 64 * LIMBS { (self.v() * p2(shift as nat)) %% bp(LIMBS as nat) } else { 0 })" % WFL, "C05 C11 C15"),
- ("uint/shl", U, "shl_limb", "requires LIMBS >= 1, shift < 64\n    ensures ret__.0.v() + ret__.1.0 as int * bp(LIMBS as nat) == self.v() * p2(shift as nat)", "C05 C02 C11"),
- ("uint/shl", U, "overflowing_shl1", "requires LIMBS >= 1\n    ensures ret__.0.v() + ret__.1.0 as int * bp(LIMBS as nat) == 2 * self.v(), ret__.1.0 <= 1", "C05 C11"),
- ("uint/shr", U, "shr", "requires %s, (shift as int) < 64 * LIMBS\n    ensures ret__.v() == self.v() / p2(shift as nat)" % WFL, "C05 C11"),
- ("uint/shr", U, "shr_vartime", "requires %s, (shift as int) < 64 * LIMBS\n    ensures ret__.v() == self.v() / p2(shift as nat)" % WFL, "C05 C11 C15"),
- ("uint/shr", U, "overflowing_shr", "requires %s\n    ensures ret__.is_some.wf(), ret__.is_some.t() == ((shift as int) < 64 * LIMBS), ret__.is_some.t() ==> ret__.value.v() == self.v() / p2(shift as nat), !ret__.is_some.t() ==> ret__.value.v() == 0" % WFL, "C05 C11"),
- ("uint/shr", U, "overflowing_shr_vartime", "requires %s\n    ensures ret__.is_some.wf(), ret__.is_some.t() == ((shift as int) < 64 * LIMBS), ret__.is_some.t() ==> ret__.value.v() == self.v() / p2(shift as nat), !ret__.is_some.t() ==> ret__.value.v() == 0" % WFL, "C05 C11 C15"),
- ("uint/shr", U, "wrapping_shr", "requires %s\n    ensures ret__.v() == (if (shift as int) < 64 * LIMBS { self.v() / p2(shift as nat) } else { 0 })" % WFL, "C05 C11"),
- ("uint/shr", U, "wrapping_shr_vartime", "requires %s\n    ensures ret__.v() == (if (shift as int) < 64 * LIMBS { self.v() / p2(shift as nat) } else { 0 })" % WFL, "C05 C11 C15"),
- ("uint/shr", U, "shr1", "requires LIMBS >= 1\n    ensures ret__.v() == self.v() / 2", "C05 C11"),
- ("uint/shr", U, "shr1_with_carry", "requires LIMBS >= 1\n    ensures ret__.0.v() == self.v() / 2, ret__.1.wf(), ret__.1.t() == (self.v() % 2 == 1)", "C05 C11"),
-])
+def main():
+    BITS_POST = "ret__ as int <= 64 * LIMBS, (ret__ == 0) == (self.v() == 0), self.v() < p2(ret__ as nat), ret__ > 0 ==> self.v() >= p2((ret__ - 1) as nat)"
+    WFL = "1 <= LIMBS < 0x400_0000"
+    mk("/verif/units/l2_shift.rs", "L2: Uint shifts and bit queries (src/uint/shl.rs, shr.rs, bits.rs) -- C05", "", [
+     ("uint/bits", U, "bits", "requires %s\n    ensures %s" % (WFL, BITS_POST), "C05 C11"),
+     ("uint/bits", U, "bits_vartime", "requires %s\n    ensures %s" % (WFL, BITS_POST), "C05 C11 C15"),
+     ("uint/bits", U, "leading_zeros", "requires %s\n    ensures ret__ as int <= 64 * LIMBS, (ret__ as int == 64 * LIMBS) == (self.v() == 0), self.v() < p2((64 * LIMBS - ret__) as nat), (ret__ as int) < 64 * LIMBS ==> self.v() >= p2((64 * LIMBS - ret__ - 1) as nat)" % WFL, "C05 C11"),
+     ("uint/bits", U, "trailing_zeros", "requires %s\n    ensures ret__ as int <= 64 * LIMBS, (ret__ as int == 64 * LIMBS) == (self.v() == 0), self.v() %% p2(ret__ as nat) == 0, (ret__ as int) < 64 * LIMBS ==> (self.v() / p2(ret__ as nat)) %% 2 == 1" % WFL, "C05 C11"),
+     ("uint/bits", U, "trailing_zeros_vartime", "requires %s\n    ensures ret__ as int <= 64 * LIMBS, (ret__ as int == 64 * LIMBS) == (self.v() == 0), self.v() %% p2(ret__ as nat) == 0, (ret__ as int) < 64 * LIMBS ==> (self.v() / p2(ret__ as nat)) %% 2 == 1" % WFL, "C05 C11 C15"),
+     ("uint/bits", U, "bit", "requires %s\n    ensures ret__.wf(), ret__.t() == ((index as int) < 64 * LIMBS && (self.v() / p2(index as nat)) %% 2 == 1)" % WFL, "C05 C11"),
+     ("uint/bits", U, "bit_vartime", "requires %s\n    ensures ret__ == ((index as int) < 64 * LIMBS && (self.v() / p2(index as nat)) %% 2 == 1)" % WFL, "C05 C11 C15"),
+     ("uint/shl", U, "shl", "requires %s, (shift as int) < 64 * LIMBS\n    ensures ret__.v() == (self.v() * p2(shift as nat)) %% bp(LIMBS as nat)" % WFL, "C05 C11"),
+     ("uint/shl", U, "shl_vartime", "requires %s, (shift as int) < 64 * LIMBS\n    ensures ret__.v() == (self.v() * p2(shift as nat)) %% bp(LIMBS as nat)" % WFL, "C05 C11 C15"),
+     ("uint/shl", U, "overflowing_shl", "requires %s\n    ensures ret__.is_some.wf(), ret__.is_some.t() == ((shift as int) < 64 * LIMBS), ret__.is_some.t() ==> ret__.value.v() == (self.v() * p2(shift as nat)) %% bp(LIMBS as nat), !ret__.is_some.t() ==> ret__.value.v() == 0" % WFL, "C05 C11"),
+     ("uint/shl", U, "overflowing_shl_vartime", "requires %s\n    ensures ret__.is_some.wf(), ret__.is_some.t() == ((shift as int) < 64 * LIMBS), ret__.is_some.t() ==> ret__.value.v() == (self.v() * p2(shift as nat)) %% bp(LIMBS as nat), !ret__.is_some.t() ==> ret__.value.v() == 0" % WFL, "C05 C11 C15"),
+     ("uint/shl", U, "wrapping_shl", "requires %s\n    ensures ret__.v() == (if (shift as int) < 64 * LIMBS { (self.v() * p2(shift as nat)) %% bp(LIMBS as nat) } else { 0 })" % WFL, "C05 C11"),
+     ("uint/shl", U, "wrapping_shl_vartime", "requires %s\n    ensures ret__.v() == (if (shift as int) < 64 * LIMBS { (self.v() * p2(shift as nat)) %% bp(LIMBS as nat) } else { 0 })" % WFL, "C05 C11 C15"),
+     ("uint/shl", U, "shl_limb", "requires LIMBS >= 1, shift < 64\n    ensures ret__.0.v() + ret__.1.0 as int * bp(LIMBS as nat) == self.v() * p2(shift as nat)", "C05 C02 C11"),
+     ("uint/shl", U, "overflowing_shl1", "requires LIMBS >= 1\n    ensures ret__.0.v() + ret__.1.0 as int * bp(LIMBS as nat) == 2 * self.v(), ret__.1.0 <= 1", "C05 C11"),
+     ("uint/shr", U, "shr", "requires %s, (shift as int) < 64 * LIMBS\n    ensures ret__.v() == self.v() / p2(shift as nat)" % WFL, "C05 C11"),
+     ("uint/shr", U, "shr_vartime", "requires %s, (shift as int) < 64 * LIMBS\n    ensures ret__.v() == self.v() / p2(shift as nat)" % WFL, "C05 C11 C15"),
+     ("uint/shr", U, "overflowing_shr", "requires %s\n    ensures ret__.is_some.wf(), ret__.is_some.t() == ((shift as int) < 64 * LIMBS), ret__.is_some.t() ==> ret__.value.v() == self.v() / p2(shift as nat), !ret__.is_some.t() ==> ret__.value.v() == 0" % WFL, "C05 C11"),
+     ("uint/shr", U, "overflowing_shr_vartime", "requires %s\n    ensures ret__.is_some.wf(), ret__.is_some.t() == ((shift as int) < 64 * LIMBS), ret__.is_some.t() ==> ret__.value.v() == self.v() / p2(shift as nat), !ret__.is_some.t() ==> ret__.value.v() == 0" % WFL, "C05 C11 C15"),
+     ("uint/shr", U, "wrapping_shr", "requires %s\n    ensures ret__.v() == (if (shift as int) < 64 * LIMBS { self.v() / p2(shift as nat) } else { 0 })" % WFL, "C05 C11"),
+     ("uint/shr", U, "wrapping_shr_vartime", "requires %s\n    ensures ret__.v() == (if (shift as int) < 64 * LIMBS { self.v() / p2(shift as nat) } else { 0 })" % WFL, "C05 C11 C15"),
+     ("uint/shr", U, "shr1", "requires LIMBS >= 1\n    ensures ret__.v() == self.v() / 2", "C05 C11"),
+     ("uint/shr", U, "shr1_with_carry", "requires LIMBS >= 1\n    ensures ret__.0.v() == self.v() / 2, ret__.1.wf(), ret__.1.t() == (self.v() % 2 == 1)", "C05 C11"),
+    ])
 
-RECIP = '''
-//@@ item src/uint/div_limb.rs | struct Reciprocal
-//@@ end
-impl Reciprocal {
-    /// the Moeller-Granlund reciprocal relation: v = floor((B^2 - 1) / d) - B for a normalised d
-    pub open spec fn wf(&self) -> bool {
-        let d = self.divisor_normalized as int; let v = self.reciprocal as int;
-        &&& d >= B() / 2 &&& (B() + v) * d <= B() * B() - 1 &&& B() * B() - 1 < (B() + v) * d + d &&& self.shift < 64
+    RECIP = '''
+    //@@ item src/uint/div_limb.rs | struct Reciprocal
+    //@@ end
+    impl Reciprocal {
+        /// the Moeller-Granlund reciprocal relation: v = floor((B^2 - 1) / d) - B for a normalised d
+        pub open spec fn wf(&self) -> bool {
+            let d = self.divisor_normalized as int; let v = self.reciprocal as int;
+            &&& d >= B() / 2 &&& (B() + v) * d <= B() * B() - 1 &&& B() * B() - 1 < (B() + v) * d + d &&& self.shift < 64
+        }
+        /// the divisor this reciprocal was built for
+        pub open spec fn dv(&self) -> int { self.divisor_normalized as int / p2(self.shift as nat) }
     }
-    /// the divisor this reciprocal was built for
-    pub open spec fn dv(&self) -> int { self.divisor_normalized as int / p2(self.shift as nat) }
-}
-'''
-D2 = "ret__.0 as int * reciprocal.divisor_normalized as int + ret__.1 as int == u1 as int * B() + u0 as int, ret__.1 < reciprocal.divisor_normalized"
-mk("/verif/units/l3_divlimb.rs", "L3: division by a single limb (src/uint/div_limb.rs and the limb forms in src/uint/div.rs) -- C02", "", [
- ("uint/div_limb", "-", "reciprocal", "requires d >= 0x8000_0000_0000_0000u64\n    ensures (B() + ret__ as int) * d as int <= B() * B() - 1, B() * B() - 1 < (B() + ret__ as int) * d as int + d as int", "C02 C11"),
- ("uint/div_limb", "impl Reciprocal", "new", "requires divisor.0.0 != 0\n    ensures ret__.wf(), ret__.dv() == divisor.0.0 as int, ret__.divisor_normalized as int == divisor.0.0 as int * p2(ret__.shift as nat),\n        divisor.0.0 as int >= B() / 2 ==> (ret__.shift == 0 && ret__.divisor_normalized == divisor.0.0)", "C02 C11"),
- ("uint/div_limb", "-", "div2by1", "requires reciprocal.wf(), u1 < reciprocal.divisor_normalized\n    ensures %s" % D2, "C02 C11"),
- ("uint/div_limb", "-", "div3by2", "requires v1_reciprocal.wf(), v1_reciprocal.shift == 0, u2 <= v1_reciprocal.divisor_normalized\n    ensures ret__ as int == min_int(B() - 1, ((u2 as int * B() + u1 as int) * B() + u0 as int) / (v1_reciprocal.divisor_normalized as int * B() + v0 as int))", "C02 C11"),
- ("uint/div_limb", "-", "div_rem_limb_with_reciprocal", "requires L >= 1, reciprocal.wf(), reciprocal.dv() > 0, reciprocal.divisor_normalized as int == reciprocal.dv() * p2(reciprocal.shift as nat)\n    ensures ret__.0.v() * reciprocal.dv() + ret__.1.0 as int == u.v(), (ret__.1.0 as int) < reciprocal.dv()", "C02 C11"),
- ("uint/div_limb", "-", "rem_limb_with_reciprocal", "requires L >= 1, reciprocal.wf(), reciprocal.dv() > 0, reciprocal.divisor_normalized as int == reciprocal.dv() * p2(reciprocal.shift as nat)\n    ensures ret__.0 as int == u.v() % reciprocal.dv()", "C02 C11 C15"),
- ("uint/div_limb", "-", "rem_limb_with_reciprocal_wide", "requires L >= 1, reciprocal.wf(), reciprocal.dv() > 0, reciprocal.divisor_normalized as int == reciprocal.dv() * p2(reciprocal.shift as nat)\n    ensures ret__.0 as int == (lo_hi.0.v() + lo_hi.1.v() * bp(L as nat)) % reciprocal.dv()", "C02 C11"),
- ("uint/div", U, "div_rem_limb_with_reciprocal", "requires LIMBS >= 1, reciprocal.wf(), reciprocal.dv() > 0, reciprocal.divisor_normalized as int == reciprocal.dv() * p2(reciprocal.shift as nat)\n    ensures ret__.0.v() * reciprocal.dv() + ret__.1.0 as int == self.v(), (ret__.1.0 as int) < reciprocal.dv()", "C02 C11 C15"),
- ("uint/div", U, "div_rem_limb", "requires LIMBS >= 1, rhs.0.0 != 0\n    ensures ret__.0.v() * rhs.0.0 as int + ret__.1.0 as int == self.v(), ret__.1.0 < rhs.0.0", "C02 C11 C15"),
- ("uint/div", U, "rem_limb_with_reciprocal", "requires LIMBS >= 1, reciprocal.wf(), reciprocal.dv() > 0, reciprocal.divisor_normalized as int == reciprocal.dv() * p2(reciprocal.shift as nat)\n    ensures ret__.0 as int == self.v() % reciprocal.dv()", "C02 C11 C15"),
- ("uint/div", U, "rem_limb", "requires LIMBS >= 1, rhs.0.0 != 0\n    ensures ret__.0 as int == self.v() % (rhs.0.0 as int)", "C02 C11 C15"),
-], pre=RECIP)
+    '''
+    D2 = "ret__.0 as int * reciprocal.divisor_normalized as int + ret__.1 as int == u1 as int * B() + u0 as int, ret__.1 < reciprocal.divisor_normalized"
+    mk("/verif/units/l3_divlimb.rs", "L3: division by a single limb (src/uint/div_limb.rs and the limb forms in src/uint/div.rs) -- C02", "", [
+     ("uint/div_limb", "-", "reciprocal", "requires d >= 0x8000_0000_0000_0000u64\n    ensures (B() + ret__ as int) * d as int <= B() * B() - 1, B() * B() - 1 < (B() + ret__ as int) * d as int + d as int", "C02 C11"),
+     ("uint/div_limb", "impl Reciprocal", "new", "requires divisor.0.0 != 0\n    ensures ret__.wf(), ret__.dv() == divisor.0.0 as int, ret__.divisor_normalized as int == divisor.0.0 as int * p2(ret__.shift as nat),\n        divisor.0.0 as int >= B() / 2 ==> (ret__.shift == 0 && ret__.divisor_normalized == divisor.0.0)", "C02 C11"),
+     ("uint/div_limb", "-", "div2by1", "requires reciprocal.wf(), u1 < reciprocal.divisor_normalized\n    ensures %s" % D2, "C02 C11"),
+     ("uint/div_limb", "-", "div3by2", "requires v1_reciprocal.wf(), v1_reciprocal.shift == 0, u2 <= v1_reciprocal.divisor_normalized\n    ensures ret__ as int == min_int(B() - 1, ((u2 as int * B() + u1 as int) * B() + u0 as int) / (v1_reciprocal.divisor_normalized as int * B() + v0 as int))", "C02 C11"),
+     ("uint/div_limb", "-", "div_rem_limb_with_reciprocal", "requires L >= 1, reciprocal.wf(), reciprocal.dv() > 0, reciprocal.divisor_normalized as int == reciprocal.dv() * p2(reciprocal.shift as nat)\n    ensures ret__.0.v() * reciprocal.dv() + ret__.1.0 as int == u.v(), (ret__.1.0 as int) < reciprocal.dv()", "C02 C11"),
+     ("uint/div_limb", "-", "rem_limb_with_reciprocal", "requires L >= 1, reciprocal.wf(), reciprocal.dv() > 0, reciprocal.divisor_normalized as int == reciprocal.dv() * p2(reciprocal.shift as nat)\n    ensures ret__.0 as int == u.v() % reciprocal.dv()", "C02 C11 C15"),
+     ("uint/div_limb", "-", "rem_limb_with_reciprocal_wide", "requires L >= 1, reciprocal.wf(), reciprocal.dv() > 0, reciprocal.divisor_normalized as int == reciprocal.dv() * p2(reciprocal.shift as nat)\n    ensures ret__.0 as int == (lo_hi.0.v() + lo_hi.1.v() * bp(L as nat)) % reciprocal.dv()", "C02 C11"),
+     ("uint/div", U, "div_rem_limb_with_reciprocal", "requires LIMBS >= 1, reciprocal.wf(), reciprocal.dv() > 0, reciprocal.divisor_normalized as int == reciprocal.dv() * p2(reciprocal.shift as nat)\n    ensures ret__.0.v() * reciprocal.dv() + ret__.1.0 as int == self.v(), (ret__.1.0 as int) < reciprocal.dv()", "C02 C11 C15"),
+     ("uint/div", U, "div_rem_limb", "requires LIMBS >= 1, rhs.0.0 != 0\n    ensures ret__.0.v() * rhs.0.0 as int + ret__.1.0 as int == self.v(), ret__.1.0 < rhs.0.0", "C02 C11 C15"),
+     ("uint/div", U, "rem_limb_with_reciprocal", "requires LIMBS >= 1, reciprocal.wf(), reciprocal.dv() > 0, reciprocal.divisor_normalized as int == reciprocal.dv() * p2(reciprocal.shift as nat)\n    ensures ret__.0 as int == self.v() % reciprocal.dv()", "C02 C11 C15"),
+     ("uint/div", U, "rem_limb", "requires LIMBS >= 1, rhs.0.0 != 0\n    ensures ret__.0 as int == self.v() % (rhs.0.0 as int)", "C02 C11 C15"),
+    ], pre=RECIP)
 
-DIVPOST = "ret__.0.v() * rhs.0.v() + ret__.1.v() == self.v(), 0 <= ret__.1.v() < rhs.0.v()"
-mk("/verif/units/l3_div_vt.rs", "L3: variable-time full division (src/uint/div.rs: div_rem_vartime, rem_vartime, rem_wide_vartime, rem2k_vartime, ...) -- C02", "use crate::l2_shift::*;\nuse crate::l3_divlimb::*;\n", [
- ("uint/div", U, "shl_limb_vartime", "requires shift < 64, 1 <= limbs_num <= LIMBS\n    ensures val(ret__.0.limbs@, limbs_num as nat) + ret__.1.0 as int * bp(limbs_num as nat) == val(self.limbs@, limbs_num as nat) * p2(shift as nat),\n        forall|k: int| limbs_num <= k < LIMBS ==> ret__.0.limbs@[k] == (if shift == 0 { self.limbs@[k] } else { Limb(0) })", "C02 C11"),
- ("uint/div", U, "shr_limb_vartime", "requires shift < 64, 1 <= limbs_num <= LIMBS\n    ensures val(ret__.limbs@, limbs_num as nat) == val(self.limbs@, limbs_num as nat) / p2(shift as nat),\n        forall|k: int| limbs_num <= k < LIMBS ==> ret__.limbs@[k] == (if shift == 0 { self.limbs@[k] } else { Limb(0) })", "C02 C11"),
- ("uint/div", U, "div_rem_vartime", "requires 1 <= LIMBS < 0x400_0000, 1 <= RHS_LIMBS < 0x400_0000, rhs.0.v() != 0\n    ensures ret__.0.v() * rhs.0.v() + ret__.1.v() == self.v(), 0 <= ret__.1.v() < rhs.0.v()", "C02 C11 C15"),
- ("uint/div", U, "rem_vartime", "requires 1 <= LIMBS < 0x400_0000, rhs.0.v() != 0\n    ensures ret__.v() == self.v() % rhs.0.v()", "C02 C11 C15"),
- ("uint/div", U, "rem_wide_vartime", "requires 1 <= LIMBS < 0x400_0000, rhs.0.v() != 0\n    ensures ret__.v() == (lower_upper.0.v() + lower_upper.1.v() * bp(LIMBS as nat)) % rhs.0.v()", "C02 C11"),
- ("uint/div", U, "rem2k_vartime", "requires 1 <= LIMBS < 0x400_0000\n    ensures ret__.v() == self.v() % p2(k as nat)", "C02 C11"),
-])
-mk("/verif/units/l3_div_ct.rs", "L3: constant-time full division (src/uint/div.rs: div_rem, rem, wrapping_div, checked_div, checked_rem) -- C02", "use crate::l2_shift::*;\nuse crate::l3_divlimb::*;\n", [
- ("uint/div", U, "div_rem", "requires 1 <= LIMBS < 0x400_0000, 1 <= RHS_LIMBS < 0x400_0000, rhs.0.v() != 0\n    ensures ret__.0.v() * rhs.0.v() + ret__.1.v() == self.v(), 0 <= ret__.1.v() < rhs.0.v()", "C02 C11 C15"),
- ("uint/div", U, "rem", "requires 1 <= LIMBS < 0x400_0000, 1 <= RHS_LIMBS < 0x400_0000, rhs.0.v() != 0\n    ensures ret__.v() == self.v() % rhs.0.v()", "C02 C11 C15"),
-])
-MULP = "ret__.0.v() + ret__.1.v() * bp(LIMBS as nat) == self.v() * rhs.v()"
-mk("/verif/units/l3_mul.rs", "L3: multiplication and squaring (src/uint/mul.rs) -- C03", "", [
- ("uint/mul", U, "split_mul", "requires LIMBS >= 1, RHS_LIMBS >= 1\n    ensures %s" % MULP, "C03 C11"),
- ("uint/mul", U, "wrapping_mul", "requires LIMBS >= 1, H >= 1\n    ensures ret__.v() == (self.v() * rhs.v()) % bp(LIMBS as nat)", "C03 C11"),
- ("uint/mul", U, "square_wide", "requires LIMBS >= 1\n    ensures ret__.0.v() + ret__.1.v() * bp(LIMBS as nat) == self.v() * self.v()", "C03 C11 C15"),
-])
+    DIVPOST = "ret__.0.v() * rhs.0.v() + ret__.1.v() == self.v(), 0 <= ret__.1.v() < rhs.0.v()"
+    mk("/verif/units/l3_div_vt.rs", "L3: variable-time full division (src/uint/div.rs: div_rem_vartime, rem_vartime, rem_wide_vartime, rem2k_vartime, ...) -- C02", "use crate::l2_shift::*;\nuse crate::l3_divlimb::*;\n", [
+     ("uint/div", U, "shl_limb_vartime", "requires shift < 64, 1 <= limbs_num <= LIMBS\n    ensures val(ret__.0.limbs@, limbs_num as nat) + ret__.1.0 as int * bp(limbs_num as nat) == val(self.limbs@, limbs_num as nat) * p2(shift as nat),\n        forall|k: int| limbs_num <= k < LIMBS ==> ret__.0.limbs@[k] == (if shift == 0 { self.limbs@[k] } else { Limb(0) })", "C02 C11"),
+     ("uint/div", U, "shr_limb_vartime", "requires shift < 64, 1 <= limbs_num <= LIMBS\n    ensures val(ret__.limbs@, limbs_num as nat) == val(self.limbs@, limbs_num as nat) / p2(shift as nat),\n        forall|k: int| limbs_num <= k < LIMBS ==> ret__.limbs@[k] == (if shift == 0 { self.limbs@[k] } else { Limb(0) })", "C02 C11"),
+     ("uint/div", U, "div_rem_vartime", "requires 1 <= LIMBS < 0x400_0000, 1 <= RHS_LIMBS < 0x400_0000, rhs.0.v() != 0\n    ensures ret__.0.v() * rhs.0.v() + ret__.1.v() == self.v(), 0 <= ret__.1.v() < rhs.0.v()", "C02 C11 C15"),
+     ("uint/div", U, "rem_vartime", "requires 1 <= LIMBS < 0x400_0000, rhs.0.v() != 0\n    ensures ret__.v() == self.v() % rhs.0.v()", "C02 C11 C15"),
+     ("uint/div", U, "rem_wide_vartime", "requires 1 <= LIMBS < 0x400_0000, rhs.0.v() != 0\n    ensures ret__.v() == (lower_upper.0.v() + lower_upper.1.v() * bp(LIMBS as nat)) % rhs.0.v()", "C02 C11"),
+     ("uint/div", U, "rem2k_vartime", "requires 1 <= LIMBS < 0x400_0000\n    ensures ret__.v() == self.v() % p2(k as nat)", "C02 C11"),
+    ])
+    mk("/verif/units/l3_div_ct.rs", "L3: constant-time full division (src/uint/div.rs: div_rem, rem, wrapping_div, checked_div, checked_rem) -- C02", "use crate::l2_shift::*;\nuse crate::l3_divlimb::*;\n", [
+     ("uint/div", U, "div_rem", "requires 1 <= LIMBS < 0x400_0000, rhs.0.v() != 0\n    ensures ret__.0.v() * rhs.0.v() + ret__.1.v() == self.v(), 0 <= ret__.1.v() < rhs.0.v()", "C02 C11 C15"),
+     ("uint/div", U, "rem", "requires 1 <= LIMBS < 0x400_0000, rhs.0.v() != 0\n    ensures ret__.v() == self.v() % rhs.0.v()", "C02 C11 C15"),
+    ])
+    MULP = "ret__.0.v() + ret__.1.v() * bp(LIMBS as nat) == self.v() * rhs.v()"
+    mk("/verif/units/l3_mul.rs", "L3: multiplication and squaring (src/uint/mul.rs) -- C03", "", [
+     ("uint/mul", U, "split_mul", "requires LIMBS >= 1, RHS_LIMBS >= 1\n    ensures %s" % MULP, "C03 C11"),
+     ("uint/mul", U, "wrapping_mul", "requires LIMBS >= 1, H >= 1\n    ensures ret__.v() == (self.v() * rhs.v()) % bp(LIMBS as nat)", "C03 C11"),
+     ("uint/mul", U, "square_wide", "requires LIMBS >= 1\n    ensures ret__.0.v() + ret__.1.v() * bp(LIMBS as nat) == self.v() * self.v()", "C03 C11 C15"),
+    ])
+
+if __name__ == '__main__':
+    print('refusing to overwrite existing skeleton units; edit the unit files directly'); 
